@@ -242,6 +242,32 @@ def must_fail(id: str, hyps: Sequence, wrong_goal, timeout_ms=5000, engine="symr
               expect="refuted", reason=v.reason)
 
 
+def witness_guard(id: str, hyps: Sequence, consts: dict, funs: Sequence = (), timeout_ms=10000, engine="pyvc"):
+    """Guard against vacuity for quantified hypotheses (where asking the solver for a model times out): the sidecar supplies an explicit
+    witness -- a value for every constant (``consts``: z3 const -> term) and a definition for every function (``funs``: (decl, body over
+    z3.Var(i))) -- and every hypothesis is PROVED valid under it.  All valid => the hypotheses are satisfiable => status 'refuted'
+    (the expected status of a guard: the wrong goal False is not a consequence)."""
+    t0 = time.time()
+    bad = None
+    sub_c = [(k, v) for k, v in consts.items()]
+    for i, h in enumerate(hyps):
+        g = z3.substitute(h, *sub_c) if sub_c else h
+        g = z3.substitute_funs(g, *funs) if funs else g
+        left = [n for n in free_consts(g)]
+        if left:
+            bad = f"hypothesis {i} keeps free symbols {left[:4]} under the witness"
+            break
+        sl = z3.Solver()
+        sl.set("timeout", timeout_ms)
+        sl.add(z3.Not(g))
+        r = sl.check()
+        if r != z3.unsat:
+            bad = f"hypothesis {i} is not valid under the witness ({r}): {short(h, 160)}"
+            break
+    return ob(id, "refuted" if bad is None else "undecided", kind="guard", engine=engine, backend="z3-witness", secs=time.time() - t0,
+              expect="refuted", reason=bad or f"{len(list(hyps))} hypotheses valid under an explicit witness")
+
+
 def free_consts(e):
     seen, out, st = set(), {}, [e]
     while st:
